@@ -126,6 +126,8 @@ def h_qop(L, nkeys, op, keylen, vallen):
             valid = key_valid(L, key)
             if not valid or ref_find(L, items, R_.lower(L, key)) is None:
                 return 'documented-panic'
+        if op == 'typedBad_insert':
+            return 'documented-panic'       # documented: inserting a typed qualifier whose declared key is invalid
         L.fail('panic: %s' % e.msg)
         return 'panic'
     return 'ok'
@@ -201,6 +203,8 @@ def confirm(v, resp):
     if 'panic' in resp:
         req = v['case']
         if req.get('op') == 'quals' and req['steps'] and req['steps'][0][0] in ('index', 'index_set') and 'not found' in resp['panic']:
+            return None
+        if req.get('op') == 'quals' and req['steps'] and req['steps'][0][0] == 'typedBad_insert':
             return None
         return 'panics with %r' % resp['panic']
     return None
